@@ -15,13 +15,19 @@ type c06Case struct {
 	Cfg     sim.Config
 	RPCs    []sim.RPC
 	Choices []int
+	// Concurrent: all client calls are issued up front from separate goroutines (they queue on
+	// the connection) instead of one after the other.
+	Concurrent bool
+	// a window of director steps during which one direction of the transport is stalled
+	// (the peer is slow to drain): 0 none, 1 client->server, 2 server->client.
+	StallDir, StallFrom, StallLen int
 }
 
 var clientStepGen = rapid.Custom(func(t *rapid.T) sim.Step {
-	return sim.Step{Op: rapid.SampledFrom([]string{"send", "recv", "closesend", "close", "cancel", "send", "recv"}).Draw(t, "cop"), Size: sizeGen.Draw(t, "csize")}
+	return sim.Step{Op: rapid.SampledFrom([]string{"send", "recv", "closesend", "close", "cancel", "send", "recv", "send", "recv", "recvbad"}).Draw(t, "cop"), Size: sizeGen.Draw(t, "csize")}
 })
 var handlerStepGen = rapid.Custom(func(t *rapid.T) sim.Step {
-	return sim.Step{Op: rapid.SampledFrom([]string{"recv", "send"}).Draw(t, "hop"), Size: sizeGen.Draw(t, "hsize")}
+	return sim.Step{Op: rapid.SampledFrom([]string{"recv", "send", "recv", "send", "recv", "send", "recvbad"}).Draw(t, "hop"), Size: sizeGen.Draw(t, "hsize")}
 })
 
 // genRPC06 draws independent client and handler programs. Exclusions by construction:
@@ -29,13 +35,19 @@ var handlerStepGen = rapid.Custom(func(t *rapid.T) sim.Step {
 // inserted before "ret".
 func genRPC06(t *rapid.T, excl *string) sim.RPC {
 	var p sim.RPC
-	p.Unary = rapid.IntRange(0, 3).Draw(t, "shape") == 3
+	p.Unary = rapid.IntRange(0, 2).Draw(t, "shape") == 2
 	p.ReqSize = sizeGen.Draw(t, "usize")
 	if p.Unary {
 		if rapid.Bool().Draw(t, "ucancel") {
 			p.CSubs = []sim.Prog{{Steps: []sim.Step{{Op: "cancel"}}}}
 		}
 		p.Handler.Steps = []sim.Step{{Op: "recv"}}
+		if k := rapid.IntRange(0, 5).Draw(t, "hnorecv"); k == 0 {
+			p.Handler.Steps = []sim.Step{{Op: "recvbad"}}
+		} else if k <= 2 {
+			p.Handler.Steps = nil // fails (or, with the drain inserted below, answers) without reading the request first
+			p.ReqSize = rapid.SampledFrom([]int{100, 300, 1000}).Draw(t, "bigreq")
+		}
 		if rapid.IntRange(0, 3).Draw(t, "hsend") > 0 {
 			p.Handler.Steps = append(p.Handler.Steps, sim.Step{Op: "send", Size: sizeGen.Draw(t, "hsize")})
 		}
@@ -65,7 +77,11 @@ func genC06(t *rapid.T) c06Case {
 	if rapid.IntRange(0, 2).Draw(t, "points") == 0 {
 		c.Cfg.Points = []string{"conn.NewStream.afterNewClientStream", "conn.Invoke.afterNewClientStream"}
 	}
-	c.Choices = genChoices(t, 300)
+	c.Concurrent = rapid.IntRange(0, 2).Draw(t, "concurrent") == 0
+	c.StallDir = rapid.IntRange(0, 2).Draw(t, "stalldir")
+	c.StallFrom = rapid.IntRange(0, 8).Draw(t, "stallfrom")
+	c.StallLen = rapid.IntRange(1, 40).Draw(t, "stalllen")
+	c.Choices = rapid.SliceOfN(rapid.SampledFrom(c04Kinds), 0, 300).Draw(t, "choices")
 	return c
 }
 
@@ -83,19 +99,8 @@ func runC06(c c06Case) (r pbt.Result) {
 	choices := append([]int(nil), c.Choices...)
 	steps, forced := 0, 0
 	undelivered := false
-	for k := range c.RPCs {
-		w.StartClient(k)
+	finish := func(k int) {
 		name := fmt.Sprintf("c%d", k)
-		for steps < 300 {
-			w.Quiesce()
-			if w.Done(name) {
-				break
-			}
-			if _, ok := w.Step(take(&choices), sim.Filter{}); !ok {
-				break
-			}
-			steps++
-		}
 		if w.A.Out().Queued() > 0 || w.B.Out().Queued() > 0 || w.A.Out().CanAccept() || w.B.Out().CanAccept() {
 			undelivered = true
 		}
@@ -110,6 +115,54 @@ func runC06(c c06Case) (r pbt.Result) {
 				w.CancelRPC(k)
 			}
 			w.Flush(sim.Filter{Coarse: true})
+		}
+	}
+	// the stall starts once StallFrom transport actions happened in the stalled direction and lasts StallLen steps
+	dirActs, stallStart := 0, -1
+	filt := func() sim.Filter {
+		if stallStart < 0 && dirActs >= c.StallFrom {
+			stallStart = steps
+		}
+		in := stallStart >= 0 && steps < stallStart+c.StallLen
+		return sim.Filter{NoC2S: in && c.StallDir == 1, NoS2C: in && c.StallDir == 2}
+	}
+	note := func(name string) {
+		if (c.StallDir == 1 && strings.HasPrefix(name, "c2s.")) || (c.StallDir == 2 && strings.HasPrefix(name, "s2c.")) {
+			dirActs++
+		}
+	}
+	if c.Concurrent {
+		for k := range c.RPCs {
+			w.StartClient(k)
+		}
+		for steps < 300 {
+			name, ok := w.Step(take(&choices), filt())
+			if !ok {
+				break
+			}
+			note(name)
+			steps++
+		}
+		for k := range c.RPCs {
+			finish(k)
+		}
+	} else {
+		for k := range c.RPCs {
+			w.StartClient(k)
+			name := fmt.Sprintf("c%d", k)
+			for steps < 300 {
+				w.Quiesce()
+				if w.Done(name) {
+					break
+				}
+				name, ok := w.Step(take(&choices), filt())
+				if !ok {
+					break
+				}
+				note(name)
+				steps++
+			}
+			finish(k)
 		}
 	}
 	w.Flush(sim.Filter{Coarse: true})
@@ -166,6 +219,10 @@ func runC06(c c06Case) (r pbt.Result) {
 	if forced > 0 {
 		r.Label("forced_close")
 	}
+	if c.Concurrent {
+		r.Label("concurrent_callers")
+	}
+	r.Label(fmt.Sprintf("stall_dir_%d", c.StallDir))
 	if softCancel {
 		r.Label("soft_cancel")
 	}
